@@ -30,4 +30,23 @@ for sid in ids:
         shutil.rmtree(tmp, ignore_errors=True)
 for row in rows:
     print('%-14s %-4s %-16s %s' % row)
+# persist: seeded/results.json (latest status per seed and property) and seeded/README.md
+rp = os.path.join(V, 'seeded', 'results.json')
+res = json.load(open(rp)) if os.path.exists(rp) else {}
+head = subprocess.run(['git', '-C', V, 'rev-parse', '--short', 'HEAD'], capture_output=True, text=True).stdout.strip()
+for sid, p, status, _ in rows:
+    res.setdefault(sid, {})[p] = {'status': status.split('(')[0], 'verif_commit': head}
+json.dump(res, open(rp, 'w'), indent=1, sort_keys=True)
+with open(os.path.join(V, 'seeded', 'README.md'), 'w') as f:
+    f.write('# Independently seeded changes\n\nEach directory holds `patch.diff`, `demo.py` (run with `CELLPYLIB_REPO=<tree>`), `meta.json`.\n'
+            'Status = result of the registered quick check of the property on a scratch worktree of /repo with the patch applied\n'
+            '(`tools/run_seeded.py`); `verif` = the /verif commit the run was made at.\n\n| seed | property | status | verif | needs to manifest |\n|---|---|---|---|---|\n')
+    for sid in sorted(res):
+        try:
+            meta = json.load(open(os.path.join(V, 'seeded', sid, 'meta.json')))
+        except Exception:
+            meta = {}
+        for p in sorted(res[sid]):
+            f.write('| %s | %s | %s | %s | %s |\n' % (sid, p, res[sid][p]['status'], res[sid][p]['verif_commit'],
+                    ' '.join(str(meta.get('needs_to_manifest', '')).split())[:220].replace('|', '/')))
 # restore evidence / replays produced by runs against mutants: the caller re-runs the real checks
